@@ -62,7 +62,7 @@ NoQ   == <<0, 0>>
 
 Act(op, res, p, n, d) == [op |-> op, res |-> res, p |-> p, n |-> n, d |-> d, why |-> ""]
 
-HdrServer(k) == k \in {"honest", "lighter", "invalid", "cplie", "cfhlie", "cpprev"}
+HdrServer(k) == k \in {"honest", "lighter", "lighterq", "invalid", "cplie", "cfhlie", "cpprev"}
 CFServer(k)  == k \in {"honest", "lighter", "invalid", "cplie", "cfhlie", "cpprev"}
 
 LastCP(h) == (h \div CPI) * CPI
@@ -147,14 +147,14 @@ Finish(a) ==
 \* Initial states: behaviour assignment, chain length, side branches of the
 \* peers that serve an own chain.
 SideBranch(k, x, L) ==
-  IF k = "lighter" THEN [par |-> 1, fork |-> L - x, tip |-> L - 1, bad |-> 0]
+  IF k \in {"lighter", "lighterq"} THEN [par |-> 1, fork |-> L - x, tip |-> L - 1, bad |-> 0]
   ELSE [par |-> 1, fork |-> L, tip |-> L + x, bad |-> L + 1]
 
 RECURSIVE MkBr(_, _, _, _)
 MkBr(ks, xs, L, p) ==      \* <<branches, pv>> for peers p..NPeers
   IF p > NPeers THEN <<<<>>, <<>>>>
   ELSE LET rest == MkBr(ks, xs, L, p + 1)
-       IN IF ks[p] \in {"lighter", "invalid"}
+       IN IF ks[p] \in {"lighter", "lighterq", "invalid"}
           THEN <<<<SideBranch(ks[p], xs[p], L)>> \o rest[1], <<1>> \o rest[2]>>
           ELSE <<rest[1], <<0>> \o rest[2]>>
 
@@ -170,7 +170,7 @@ Init ==
         LET ks == [p \in Peers |-> IF p = 1 THEN "honest" ELSE asg[p][1]]
             xs == [p \in Peers |-> IF p = 1 THEN 0 ELSE asg[p][2]]
             mk == MkBr(ks, xs, L, 1)
-        IN  /\ \A p \in 2..NPeers : ks[p] = "lighter" => xs[p] \in 1..L
+        IN  /\ \A p \in 2..NPeers : ks[p] \in {"lighter", "lighterq"} => xs[p] \in 1..L
             /\ kind = ks /\ lk = xs /\ long = lg
             /\ br = <<[par |-> 0, fork |-> -1, tip |-> L, bad |-> 0]>> \o mk[1]
             /\ pv = Number(mk[2], 1, 2)
